@@ -2,8 +2,8 @@ package engine
 
 import (
 	"fmt"
-	"os"
 	"go/types"
+	"os"
 	"sort"
 	"strings"
 
@@ -486,6 +486,41 @@ func (w *World) VerifyLemma(l *spec.Lemma) *Unit {
 		}
 		vc.fact(w.lemmaStatement(vc, used))
 	}
+	if l.Induction != "" {
+		// natural induction on an int variable k (the other variables stay fixed): P(k) := hyps(k) ==> concl(k).
+		// base: P(0); step: k >= 0 /\ P(k) /\ hyps(k+1) ==> concl(k+1). Hypotheses go into the obligation's
+		// condition, not into the shared facts, so that the two cases do not see each other's assumptions.
+		k := l.Induction
+		if v, ok := env.names[k]; !ok || v.Sort != "" && v.Sort != "Int" || vc.S.Sort(v.T) != "Int" {
+			vc.outside("lemma %s: induction variable %s is not an int variable of the lemma", l.Name, k)
+			return &Unit{Key: key, VC: vc}
+		}
+		zero := &spec.IntLit{Val: "0"}
+		succ := &spec.Binary{Op: "+", L: &spec.Ident{Name: k}, R: &spec.IntLit{Val: "1"}}
+		at := func(cs []*spec.Clause, with spec.Expr) []string {
+			var out []string
+			for _, c := range cs {
+				ex := c.Expr
+				if with != nil {
+					ex = spec.Subst(ex, k, with)
+				}
+				out = append(out, env.compileBool(ex))
+			}
+			return out
+		}
+		base := and(at(l.Hyps, zero)...)
+		ih := implies(and(at(l.Hyps, nil)...), and(at(l.Concl, nil)...))
+		step := and(fmt.Sprintf("(>= %s 0)", env.names[k].Term), ih, and(at(l.Hyps, succ)...))
+		for i, c := range l.Concl {
+			label := c.Label
+			if label == "" {
+				label = fmt.Sprint(i + 1)
+			}
+			vc.oblige(key, "lemma-base", label, clauseProps(c, l.Props), base, env.compileBool(spec.Subst(c.Expr, k, zero)))
+			vc.oblige(key, "lemma-step", label, clauseProps(c, l.Props), step, env.compileBool(spec.Subst(c.Expr, k, succ)))
+		}
+		return &Unit{Key: key, VC: vc}
+	}
 	for _, h := range l.Hyps {
 		vc.fact(env.compileBool(h.Expr))
 	}
@@ -583,7 +618,6 @@ func (w *World) UnitKeys() []string {
 // Finish completes a VC after generation (axioms).
 func (w *World) Finish(vc *VC) { w.addAxioms(vc) }
 
-
 // lemmaStatement returns the universally quantified statement of a lemma.
 func (w *World) lemmaStatement(vc *VC, l *spec.Lemma) string {
 	env := &SpecEnv{vc: vc, st: NewState(), names: map[string]Val{}, bound: map[string]Val{}}
@@ -606,12 +640,15 @@ func (w *World) lemmaStatement(vc *VC, l *spec.Lemma) string {
 	if len(l.Hyps) > 0 {
 		body = &spec.Binary{Op: "==>", L: conj(l.Hyps), R: body}
 	}
+	if l.Induction != "" {
+		// proved for the natural numbers only
+		body = &spec.Binary{Op: "==>", L: &spec.Binary{Op: ">=", L: &spec.Ident{Name: l.Induction}, R: &spec.IntLit{Val: "0"}}, R: body}
+	}
 	if len(l.Vars) == 0 {
 		return env.compileBool(body)
 	}
 	return env.compileBool(&spec.Quant{Forall: true, Vars: l.Vars, Body: body})
 }
-
 
 // VerifyInit proves the global invariants of a package for its initialiser: starting from
 // zero-valued globals, after running the synthetic init function (with the user's init
@@ -676,7 +713,6 @@ func (w *World) InitUnits() []string {
 	sort.Strings(out)
 	return out
 }
-
 
 // qualifiedCalls lists the pkg.Name functions called in an expression.
 func qualifiedCalls(e spec.Expr) []string {
